@@ -379,6 +379,26 @@ def eval_contained(cfg, seed):
     return fails
 
 
+def eval_containing(cfg, seed):
+    """the same clause through reconcile.ContainingTree.simulate_contained_kingman (the species tree wrapped as a containing tree)"""
+    from dendropy.model import reconcile
+    name = "ContainingTree.simulate_contained_kingman"
+    sp, m, kw = _contained_args(cfg)
+    ct = reconcile.ContainingTree(containing_tree=sp, contained_taxon_namespace=m.domain_taxon_namespace,
+                                  contained_to_containing_taxon_map=m, fit_containing_edge_lengths=False)
+
+    def invoke(rng):
+        return ct.simulate_contained_kingman(rng=rng, **kw)
+
+    outs, touched = two_runs(invoke, seed)
+    fails, gtree = common_monitors(name, outs, touched, T.tree_dump)
+    if gtree is None:
+        return fails
+    nsp = len(T.leaves(sp._seed_node))
+    gene_tree_monitors(name, gtree, ct, cfg["sp"], sum(genes_list(cfg["genes"], nsp)), fails)
+    return fails
+
+
 FRESH_TRIES = 12
 
 
@@ -498,7 +518,7 @@ def eval_helper(cfg, seed):
 
 
 EVAL = {"bd": eval_bd, "bdopt": eval_bdopt, "upb": eval_upb, "kingman": eval_kingman, "contained": eval_contained,
-        "contained_fresh": eval_contained_fresh, "constrained": eval_constrained, "helper": eval_helper}
+        "contained_fresh": eval_contained_fresh, "constrained": eval_constrained, "helper": eval_helper, "containing": eval_containing}
 
 
 def cfg_key(kind, cfg, seed=None):
@@ -621,6 +641,15 @@ def gen_items(ctx):
                 cfg = dict(sp=sp, genes=genes, pop=pop)
                 nl = n_leaves(_tup(sp["shape"]))
                 items.append((sc, "contained", cfg, list(range(gseeds)), sum(genes_list(genes, nl)) >= 3))
+    sc = "containing_tree@seeds"
+    ctx.scope(sc, "reconcile.ContainingTree(species tree).simulate_contained_kingman x the same species trees x genes per species in {1,2,mixed} x "
+                  "population sizes {default, default_pop_size=4} x seeds 0..%d; non-trivial = >= 3 gene leaves" % (gseeds // 2 - 1), exhaustive=False)
+    for sp in sps:
+        for genes in (1, 2, "mixed"):
+            for pop in ("default", "default_pop_size"):
+                cfg = dict(sp=sp, genes=genes, pop=pop)
+                nl = n_leaves(_tup(sp["shape"]))
+                items.append((sc, "containing", cfg, list(range(gseeds // 2)), sum(genes_list(genes, nl)) >= 3))
     sc = "contained_fresh_args@seeds"
     ctx.scope(sc, "contained_coalescent_tree on arguments rebuilt with equal content for each of %d runs, 2 fixed species trees x 4 genes per species "
                   "x seeds 0..1; non-trivial = all" % FRESH_TRIES, exhaustive=False)
